@@ -168,7 +168,7 @@ def make_runner(c, f, mutate, sink, fixed=None, case=None):
                         "%s(%s) %s" % (ex.cls.__name__, ", ".join(repr(a)[:60] for a in ex.eargs), ex.note)
                 else:
                     for (e, w, iff) in matched:
-                        if w is not None:
+                        if w is not None and iff != 'must':      # 'must': when => raises only; says nothing about when it may
                             st.oblige('raises', "%s allowed" % e.__name__, ip.zbool(eval_pre(ip, w, values, old_heap)))
                 sink.append(('raise', ex.cls.__name__))
                 return
@@ -178,9 +178,14 @@ def make_runner(c, f, mutate, sink, fixed=None, case=None):
                     st.oblige('raises-iff', "%s required" % e.__name__, simp(z3.Not(ip.zbool(eval_pre(ip, w, values, old_heap)))))
             ctx['result'] = result
             for name, ens in c.ensures:
+                gz = None
+                if name in c.guards:
+                    gz = ip.zbool(eval_pre(ip, c.guards[name], values, old_heap))
+                    if z3.is_false(simp(gz)):
+                        continue
                 pv = eval_cfn(ip, ens, values, old_heap)
                 for i, cl in enumerate(clauses(pv)):
-                    st.oblige('ensures', "%s.%d" % (name, i), ip.zbool(cl))
+                    st.oblige('ensures', "%s.%d" % (name, i), ip.zbool(cl) if gz is None else z3.Implies(gz, ip.zbool(cl)))
             frame_obligations(ip, c, values, old_heap)
             sink.append(('ret', None))
         finally:
@@ -609,6 +614,13 @@ def native_check(c, f, nargs, want_kind=None):
         return {'observation': 'precondition evaluation failed: %r' % ex, 'violated': [], 'pre': None}
     ens = []
     for name, e in c.ensures:
+        if name in c.guards:
+            try:
+                gpre, gpost, _g = native_clause(c.guards[name])
+                if not gpost(values, gpre(values)):
+                    continue
+            except Exception:
+                continue
         pre, post, _ = native_clause(e)
         ens.append((name, post, pre(values)))
     whens = []
@@ -649,6 +661,8 @@ def native_check(c, f, nargs, want_kind=None):
         if not matched:
             violated.append('raises:unlisted %s' % type(ex).__name__)
         for (e, w, o, iff) in matched:
+            if iff == 'must':
+                continue
             if w is False and not any(w2 is not False for (e2, w2, o2, i2) in matched if e2 is not e):
                 violated.append('raises:%s allowed' % e.__name__)
         return {'observation': obs, 'violated': violated, 'pre': True}
@@ -781,7 +795,10 @@ def crosscheck(c, f, n, seed):
             nargs = {k: b.sample(rng) for k, b in c.sig.items()}
         try:
             if pre_post is not None:
-                ok = pre_post({k: c.sig[k].native_copy(v) if k in c.sig else v for k, v in nargs.items()}, [])
+                pv_ = {k: c.sig[k].native_copy(v) if k in c.sig else v for k, v in nargs.items()}
+                for real_, alias_ in getattr(c, 'param_alias', {}).items():
+                    pv_[alias_] = pv_[real_]
+                ok = pre_post(pv_, [])
                 ok = all(ok) if isinstance(ok, tuple) else bool(ok)
                 if not ok:
                     continue
@@ -873,7 +890,7 @@ def verify_unit(c, mutate=None, do_cross=True, cross_n=40, seed=0, both=False, r
         f = target_function(c)
         node, fn = function_ast(f)
         res.src_hash = hashlib.sha1(ast.dump(node).encode()).hexdigest()[:12]
-        x = Explorer(c.target, max_paths=c.options.get('max_paths', 4000))
+        x = Explorer(c.target, max_paths=c.options.get('max_paths', 4000), feas_timeout_ms=c.options.get('feas_timeout_ms', 3000))
         sink = []
         if c.cases is None:
             x.explore(make_runner(c, f, mutate, sink))
